@@ -302,18 +302,21 @@ func (g *Gen) ledgerScenario(steps int) {
 				}
 			}
 			ids = dedupStr(ids)
+			dupOnTrunk := false
 			if base == e.ledgerTip() && g.r.Chance(1, 10) {
-				// the same transaction again on the main chain: must be refused (ErrTxDuplicated)
+				// the same transaction again on the main chain: must be refused (ErrTxDuplicated); such a block is
+				// confirmed at once (as a late side-branch arrival the ledger would store it: an invalid chain, outside the property)
 				for x := range anc {
 					if x > 0 && !w.Txs[x].Coinbase {
 						ids = append(ids, fmt.Sprint(x))
+						dupOnTrunk = true
 						break
 					}
 				}
 			}
 			bi := len(w.Blocks)
 			g.emit(fmt.Sprintf("blk %d pre=%d prop=m1 aa=%d aw=%d txs=%s", bi, base, w.Award, len(w.Txs), strings.Join(ids, ",")))
-			if g.r.Chance(1, 8) {
+			if !dupOnTrunk && g.r.Chance(1, 8) {
 				unconfirmed = append(unconfirmed, bi) // arrives later (or never)
 			} else {
 				g.emit(fmt.Sprintf("confirm %d", bi))
